@@ -12,7 +12,7 @@ use debruijn::kmer::{Kmer16, Kmer6, Kmer8};
 use debruijn::Kmer;
 use simcore::model::{check_against_ref_index, first_diff, kmer_bases, probes, transcript};
 use simcore::monitor::Mon;
-use simcore::pipe::base_graph_counts;
+use simcore::pipe::{base_graph_counts, base_graph_for};
 use simcore::rec::digest_str;
 use simcore::rng::Rng;
 use simcore::spec::{gen_graph_spec, GraphSpec};
@@ -25,7 +25,7 @@ fn fail(class: &str, detail: String) -> ! {
 }
 
 fn c19<K: Kmer + Send + Sync + serde::Serialize>(spec: &GraphSpec, threads: usize) {
-    let base: BaseGraph<K, u16> = base_graph_counts::<K>(&spec.reads, spec.stranded, spec.min_count);
+    let base: BaseGraph<K, u16> = base_graph_for::<K>(spec);
     let pool = rayon::ThreadPoolBuilder::new().num_threads(threads).build().expect("pool");
     let g1 = pool.install(|| base.clone().finish());
     let g2 = base.clone().finish_serial();
@@ -124,6 +124,11 @@ fn main() {
     let mut rng = Rng::new(case_seed);
     // small graphs: the interpreter is ~1000x slower than native code
     let spec = gen_graph_spec(&mut rng, &["Kmer6", "Kmer6", "Kmer8", "Kmer16"], 4, 64);
+    let mut spec = spec;
+    if args[1] == "c19" && rng.chance(1, 3) {
+        let k = simcore::spec::k_of(&spec.ktype);
+        spec.direct_nodes = simcore::spec::gen_direct_nodes(&mut rng, &spec.reads, k, 10);
+    }
     let threads = rng.range(2, 4);
     let gamma = *rng.pick(&[1.7f64, 1.05, 1.2, 2.5]);
     match (args[1].as_str(), spec.ktype.as_str()) {
